@@ -6,8 +6,9 @@ lists of thread indexes) with the theorem `drf_noninterference`: when what one
 thread writes and another reads is at most a value-idempotent memo cell, every
 thread can still complete with exactly the result of its solo run after ANY
 schedule prefix, for any number of threads.  The step program of one suds
-invocation (options read, memo lookups, message slots, MultiRef.process on a
-per-call MultiRef object, memo lookups) satisfies the condition
+invocation (options read, memo lookups, message slots, the transport's proxy
+attribute, MultiRef.process on a per-call MultiRef object, memo lookups)
+satisfies the condition
 (`calls_noninterference`, `multiref_per_call_safe`); the same program with the
 MultiRef state on the shared binding (the code before ef3e1e2) does not
 (`multiref_shared_refuted`).
@@ -26,6 +27,8 @@ Tie to the code (this file), three instruments, all executed on real objects:
      under the corresponding schedule in Coq (sc_agrees / sc_spec_ok).
   3. CLONES: clone() on every generated client state, option isolation both
      ways, own message history, shared WSDL (cl_agrees / cl_spec_ok).
+  4. Endpoint.__getattr__ probed the way copy.deepcopy meets it while cloning
+     (lk_agrees / lk_spec_ok; theorems clone_lookup_total / _unguarded_refuted).
 PARTIAL: interference through suds' own Python-level state only; the GIL,
 C-level atomicity of dict/list operations and the thread safety of the
 standard library are assumed.
@@ -289,6 +292,7 @@ class World(object):
         import suds.sudsobject
         import suds.transport
         import suds.transport.https
+        import suds.transport.http
         import suds.bindings.multiref
         import suds.xsd.sxbasic
         self.suds = suds
@@ -408,7 +412,7 @@ def run_impl(f):
     try:
         return ("ok", f())
     except Exception as e:          # implementation exceptions are observations
-        return ("exc", type(e).__name__ + ": " + str(e)[:120])
+        return ("exc", type(e).__name__ + ": " + " ".join(str(e).split())[:120])
 
 
 # ---------------------------------------------------------------------------
@@ -578,6 +582,10 @@ class Classifier(object):
                 return "(LMrCatalog %s)" % cN(self.intern("multiref", g.order[par[0]])), "MultiRef.catalog (shared object)"
         if isinstance(o, list) and isinstance(pobj, MultiRef) and pf == ("attr", "nodes"):
             return "(LMrNodes %s)" % cN(self.intern("multiref", g.order[par[0]])), "MultiRef.nodes (shared object)"
+        if isinstance(o, suds.transport.http.HttpTransport) and field == ("attr", "proxy"):
+            owner = [n for n, c in enumerate(g.clients) if c.options.transport is o]
+            return "(LProxy %s)" % cN(owner[0] if owner else 98), \
+                "HttpTransport.proxy of the transport of client %s" % (owner[0] if owner else "?")
         if isinstance(o, MultiRef) and field[0] == "attr" and field[1] in ("nodes", "catalog"):
             ctor = "LMrNodes" if field[1] == "nodes" else "LMrCatalog"
             return "(%s %s)" % (ctor, cN(self.intern("multiref", g.order[oid]))), "MultiRef.%s (shared object)" % field[1]
@@ -747,6 +755,9 @@ class Footprint(object):
             stored = pobj.resolved_cache.get(key)
             idem = again[0] == "ok" and stored is not None and id(stored) == new[1] and \
                 same_schema_object(again[1], stored)
+        elif loc.startswith("(LProxy") and new is not None:
+            # re-assigned by every call with the proxy setting of the transport's own options
+            idem = o.proxy is o.options.proxy and self.vid_of(o.proxy) == new
         elif loc.startswith("(LFactory") and new is not None and new[0] == "o":
             cls = None
             for k, v in o.items():
@@ -755,6 +766,13 @@ class Footprint(object):
             if isinstance(cls, type):
                 idem = key == ".".join((cls.__name__, str(cls.__bases__)))
         return {"loc": loc, "what": what, "empty": empty, "idem": idem, "transient": False}
+
+
+def _vid_of(v):
+    return Graph.vid(v)
+
+
+Footprint.vid_of = staticmethod(_vid_of)
 
 
 def same_schema_object(a, b):
@@ -1265,6 +1283,8 @@ def fp_offenders(m):
                 bad.append(what + " (ANOTHER client's history)")
             continue
         if ("resolved_cache" in what or "Factory.cache" in what) and empty and idem:
+            continue
+        if what.startswith("HttpTransport.proxy") and what.endswith(own[3:]) and idem:
             continue
         bad.append(what)
     if m.get("msg_reads"):
